@@ -60,8 +60,15 @@ fn run_case(kind: &str, idx: u64, rng: &mut Rng, mon: &mut Mon, _tier: Tier) {
 fn single(idx: u64, rng: &mut Rng, mon: &mut Mon) {
     let robot = gen_robot(rng, idx, RobotMode::NonDegenerate, 0.2);
     let rp = robot.rp;
-    let q = joints_uniform(rng, PI);
-    let from_q = rng.bool(0.75);
+    let mut q = joints_uniform(rng, PI);
+    // a tenth of the cases: one joint of the generating vector a hair inside +-pi (1e-7 .. 1.5e-4 rad) while
+    // the previous value of that joint is exactly +-0.0 or smaller than that hair (first step from a zero seed)
+    let near_pi = if rng.bool(0.1) { Some((rng.usize(6), rng.sign(), rng.logu(1e-7, 1.5e-4))) } else { None };
+    if let Some((j, sg, d)) = near_pi {
+        q[j] = sg * (PI - d);
+        mon.count("near_pi_with_zero_previous");
+    }
+    let from_q = near_pi.is_some() || rng.bool(0.75);
     let pose = if from_q { fr_to_iso(&fk(&rp, &q)) } else { gen_pose(rng, &rp, 1).iso };
     // constraints
     let cons_mode = rng.usize(4);
@@ -92,9 +99,15 @@ fn single(idx: u64, rng: &mut Rng, mon: &mut Mon) {
     let w = cons.map(|c| c.sorting_weight).unwrap_or(0.0);
     let centres = cons.map(|c| c.centers).unwrap_or([0.0; 6]);
     // previous inside [-2pi,2pi]
-    let pclass = rng.usize(5);
+    let pclass = if near_pi.is_some() { 5 } else { rng.usize(5) };
     let mut sentinel = false;
     let prev: [f64; 6] = match pclass {
+        5 => {
+            let (j, _, d) = near_pi.unwrap();
+            let mut p = if rng.bool(0.3) { [0.0; 6] } else { q };
+            p[j] = *rng.pick(&[0.0, -0.0, d * 0.3, -d * 0.3, 1e-300]);
+            p
+        }
         0 => q,
         1 => {
             let mut p = q;
@@ -114,7 +127,7 @@ fn single(idx: u64, rng: &mut Rng, mon: &mut Mon) {
     };
     let reference = if sentinel { centres } else { prev };
     mon.count(&format!("weight_mode.{}", ["none", "by_prev", "by_constraints", "mixed"][cons_mode]));
-    mon.count(&format!("prev_class.{}", ["generating", "shifted", "uniform", "uniform", "sentinel"][pclass]));
+    mon.count(&format!("prev_class.{}", ["generating", "shifted", "uniform", "uniform", "sentinel", "zero_vs_near_pi"][pclass]));
 
     for e in [Entry::Continuing, Entry::Continuing5] {
         let detail = |what: &str, extra: serde_json::Value| {
